@@ -168,6 +168,10 @@ impl<'input> Lexer<'input> {
                     let (start_noprefix, bin, end) = self.get_while(i + 2, is_binary_char);
                     let start = start_noprefix - 2;
                     self.expect_peek_not(is_decimal_char)?; // disallow 0b010112
+                    if bin.len() > 128 {
+                        // the digit count is the width, even if the leading digits are zeros
+                        return Err(Error::InvalidConstant((start, end)));
+                    }
                     match u128::from_str_radix(&bin, 2) {
                         Ok(value) => {
                             let width = WireWidth::Bits(bin.len() as u8);
